@@ -266,7 +266,9 @@ func (s *proxyStreamSender) Run(
 	// Wait for shutdown signal (triggered by receiver or stream errors)
 	<-shutdownChan.Channel()
 	// Ensure send loop exits promptly
+	verifPoint("sender.beforeClose")
 	close(s.sendMsgChan)
+	verifPoint("sender.afterClose")
 	// Do not block waiting for ack goroutine; it will terminate when stream ends
 }
 
